@@ -307,6 +307,7 @@ pub fn replay(ctx: &mut Ctx, v: &serde_json::Value) {
             d: d.clone(),
             unjudged: BTreeSet::new(),
             source: v["source"].as_str().map(|s| s.to_string()),
+            has_noncf: v["has_noncf"].as_bool().unwrap_or(false),
         };
         let st = crate::art::run_batch(ctx, "C02", vec![inp], 0, 1);
         ctx.count("rustc_cases_compiled", st.compiled);
